@@ -335,7 +335,13 @@ static void vf_init(int argc, char **argv, const char *prop, const char *level)
 
 static inline double vf_elapsed_s(void) { return (vf_now_ms() - vf_t0_ms) / 1000.0; }
 static inline int vf_deadline_passed(void) { return vf_elapsed_s() > vf_deadline_s; }
-static inline int vf_is_thorough(void) { return vf_thorough; }
+/* A check whose thorough alphabets complete in well under a minute may use them in the quick tier too: it calls vf_quick_is_deep()
+ * right after vf_init().  The tier label (evidence, replay files) stays what was asked for; only the sizing decisions change.
+ * vf_is_thorough() then answers "use the larger alphabets", vf_tier_is_thorough() "the thorough tier was asked for". */
+static int vf_quick_deep;
+static inline void vf_quick_is_deep(void) { vf_quick_deep = 1; if (!vf_thorough && vf_deadline_s <= 150) vf_deadline_s = 600; }
+static inline int vf_is_thorough(void) { return vf_thorough || vf_quick_deep; }
+static inline int vf_tier_is_thorough(void) { return vf_thorough; }
 static inline int vf_replaying(void) { return vf_replay_file != NULL; }
 
 static void vf_print_new_violations(void)
